@@ -39,8 +39,16 @@ def _is_str(dt):
     return h5py.check_string_dtype(dt) is not None or dt.kind == 'S'
 
 
-def _text(x):
-    return x.decode('utf-8') if isinstance(x, bytes) else str(x)
+def _text(x, problems=None, where=''):
+    """HDF5 variable-length strings written by h5py are UTF-8; anything else is reported"""
+    if not isinstance(x, bytes):
+        return str(x)
+    try:
+        return x.decode('utf-8')
+    except UnicodeDecodeError:
+        if problems is not None:
+            problems.append('%s: string %r is not UTF-8' % (where, x))
+        return x.decode('utf-8', 'backslashreplace')
 
 
 def _matrix(f, axis, n_major, n_minor, nnz, problems):
@@ -152,7 +160,7 @@ def decode(path):
             if count and not _is_str(d.dtype):
                 problems.append('%s: element type %s is not a string type' % (name, d.dtype))
                 continue
-            out['ids'][axis] = [_text(x) for x in d[()]] if count else []
+            out['ids'][axis] = [_text(x, problems, name) for x in d[()]] if count else []
             entries = {}
             for cat, ds in f['%s/metadata' % axis].items():
                 if not isinstance(ds, h5py.Dataset):
